@@ -22,11 +22,30 @@
    minimum changes).  Deadlines/leeway do not influence anything on this backend
    (DISPATCH_HAVE_TIMER_COALESCING = 0, _dispatch_timeout_program ignores leeway): omitted.
 
+   OWNERSHIP.  The heap of a clock (dth_min, the segments, dth_needs_program / dth_dirty_bits) and its timerfd belong to
+   the manager thread: nothing wakes the manager when another thread sets dth_dirty_bits, so a heap change made off the
+   manager is never followed by _dispatch_timers_program and the timerfd keeps the old expiry.  Consequently
+     - every action that changes the armed set or the target of an armed timer is a Manager action (action property
+       HeapMutatedOnlyByOwner; the timerfd state kt/ken/kreg likewise: KernelTimerProgrammedOnlyByOwner);
+     - a target-queue thread (tail of _dispatch_source_latch_and_call) may apply a pending configuration itself only when
+       the timer is NOT in the heap, which it knows from the data it latched: prev & DISPATCH_TIMER_DISARMED_MARKER
+       (the manager took the timer out of the heap before it published the marker; only an invoke on the manager queue,
+       excluded by the drain lock the thread holds, can put it back): OffManagerMayConfigure / invariant
+       DisarmedMarkerMeansOutOfHeap.  Otherwise the configuration stays pending and the source goes to the manager
+       (Wants = "mgr"), which configures, re-sifts and reprograms;
+     - ProgrammedCoversHeap: whenever the manager blocks (mpc = "w"), every non-empty heap has its timerfd enabled at or
+       before the minimum target.  It is an invariant over ALL states, so it is evaluated right after steps of other
+       threads too: a non-manager step that lowers a heap minimum while the manager sleeps breaks it.
+   Mutant "worker_configures_armed" (= seeded change C11-4: the `prev & DISARMED_MARKER` guard dropped) is refuted by each
+   of these and, invariants aside, by the liveness property Fires: with no unrelated wake-up the timer never fires at its
+   new settings.
+
    Time: one abstract counter per clock, advancing nondeterministically, never backwards.
 
    Property C11 as invariants over ghost observations of every handler invocation:
-     NeverEarly, CountBound, OnlyNewConfig, AfterAtMostOnce, ArmedImpliesProgrammed,
-   and as liveness: Fires (every armed unsuspended uncancelled timer's handler runs again). *)
+     NeverEarly, CountBound, OnlyNewConfig, AfterAtMostOnce, ArmedImpliesProgrammed, ProgrammedCoversHeap,
+   and as liveness: Fires (every armed unsuspended uncancelled timer's handler runs again), ConfigApplied (a published
+   configuration is eventually in force). *)
 EXTENDS Integers, FiniteSets, TLC, TimerLaws    \* TimerLaws: INF, Mut, Heap, MinTarget, MinTimers, ComputeMissed, Boundaries
 
 CONSTANTS NTimers,      \* timer objects 1..NTimers
@@ -361,13 +380,25 @@ TLatch(t) ==
                /\ viol' = IF viol = "" THEN law ELSE viol
     /\ UNCHANGED <<now, dirty, np, calls, mpc, mi, mdis, cnow, darm, kt, ken, kreg>>
 
-\* after the callout: a disarmed timer with a pending configuration is configured in place
+\* after the callout: a DISARMED timer with a pending configuration is configured in place.
+\*     if ((prev & DISPATCH_TIMER_DISARMED_MARKER) && _dispatch_source_refs_needs_configuration(dr))
+\*         _dispatch_timer_unote_configure(ds->ds_timer_refs);
+\* This is the only configure that runs on a thread that does not own the heaps (activation apart: nothing is armed
+\* then).  The latched marker is the thread's proof that the timer is out of the heap, so Configure does not reach
+\* _dispatch_timer_unote_resume and touches neither heap nor dirty bits.  An ARMED timer that was re-set (from its own
+\* handler, or by any thread while the handler ran) keeps its configuration pending: Wants = "mgr".
+\* Mutant "worker_configures_armed": the guard is dropped; Configure of an armed timer re-sifts the heap and sets
+\* dth_dirty_bits / dth_needs_program on this thread (HeapTouched) - which nobody is going to look at.
+OffManagerMayConfigure(r) == r.prevmark \/ Mut = "worker_configures_armed"
 TPost(t) ==
     /\ tm[t].tpc = "post"
     /\ LET r == tm[t]
-           r1 == IF r.prevmark /\ r.pend.gen # 0 /\ ~r.after THEN Configure(r) ELSE r
-       IN tm' = [tm EXCEPT ![t] = [r1 EXCEPT !.tpc = "idle", !.prevmark = FALSE]]
-    /\ UNCHANGED <<now, dirty, np, calls>> /\ MgrSame
+           here == OffManagerMayConfigure(r) /\ r.pend.gen # 0 /\ ~r.after
+           r1 == IF here THEN Configure(r) ELSE r
+           m1 == [tm EXCEPT ![t] = [r1 EXCEPT !.tpc = "idle", !.prevmark = FALSE]]
+       IN /\ tm' = m1
+          /\ TouchIf(here /\ r.armed, m1)         \* _dispatch_timer_unote_configure: if (armed) resume -> arm/disarm -> heap_dirty
+    /\ UNCHANGED <<now, calls>> /\ MgrSame
 
 (* ------------------------------- next-state relation ------------------------------- *)
 Client == \E t \in Timers :
@@ -405,6 +436,25 @@ ArmedImpliesProgrammed ==
         \/ mpc = "run" /\ (np[c] \/ (mi <= c /\ DueCached(c)))
         \/ mpc = "prog" /\ ((np[c] /\ mi <= c) \/ (dirty /\ DueCached(c)))
 NothingLeftDirty == mpc = "w" => ~dirty
+\* ArmedImpliesProgrammed at the point where nothing else is going to happen: the manager is blocked (or about to block:
+\* MQueueDone/MProg go to "w" only with dirty = FALSE) and the only wake-ups are the timerfds and manager-queue pushes.
+ProgrammedCoversHeap == mpc = "w" => \A c \in Clocks : Heap(tm, c) # {} => Programmed(c)
+
+(* ---- ownership ---- *)
+\* what the heap of its clock holds about timer t
+HeapEntry(m, t) == IF m[t].armed THEN <<m[t].clk, m[t].tgt>> ELSE <<>>
+\* a step of the manager thread: no client call, no activation, no target-queue program counter moves, time stands still
+ManagerStep == /\ calls' = calls /\ now' = now
+               /\ \A t \in Timers : tm'[t].tpc = tm[t].tpc /\ tm'[t].active = tm[t].active
+\* heap insert / remove / re-sift (a changed target of an armed timer) only in steps of the manager, which is then
+\* draining its queue (source invoke) or inside _dispatch_timers_run
+HeapMutatedOnlyByOwner ==
+    [][(\E t \in Timers : HeapEntry(tm', t) # HeapEntry(tm, t)) => (ManagerStep /\ mpc \in {"q", "run"})]_vars
+\* timerfd_settime / EPOLL_CTL_*: only the manager inside _dispatch_timers_program; expiry delivery: only while it waits
+KernelTimerProgrammedOnlyByOwner ==
+    [][(kt' # kt \/ ken' # ken \/ kreg' # kreg \/ darm' # darm) => (ManagerStep /\ mpc \in {"prog", "w"})]_vars
+\* the DISARMED marker (in ds_pending_data, or latched by the invoke in progress) is proof that the timer is out of the heap
+DisarmedMarkerMeansOutOfHeap == \A t \in Timers : (tm[t].pmark \/ tm[t].prevmark) => ~tm[t].armed
 
 TypeOK == /\ \A c \in Clocks : now[c] \in 0..Horizon /\ kt[c] \in 0..INF
           /\ mpc \in {"q", "run", "prog", "w"} /\ mi \in Clocks /\ mdis \in 0..NTimers
@@ -415,4 +465,8 @@ Obliged(t) == tm[t].armed /\ ~tm[t].susp /\ ~tm[t].canc /\ tm[t].tgt <= Horizon 
 Fires == \A t \in Timers : \A k \in 0..(MaxFire - 1) :
             (Obliged(t) /\ tm[t].nfire = k) ~> (tm[t].nfire > k \/ tm[t].susp \/ tm[t].canc \/ tm[t].pend.gen # 0)
 AfterFires == \A t \in AfterSet : (tm[t].active /\ tm[t].tgt <= Horizon) ~> tm[t].fired
+\* a published configuration does not stay pending: it is applied (by the manager, or by the target queue when the timer
+\* is disarmed) unless the source is suspended or cancelled; then Fires takes over for the new settings
+ConfigApplied == \A t \in Timers : (tm[t].pend.gen # 0 /\ tm[t].active /\ ~tm[t].susp /\ ~tm[t].canc)
+                                      ~> (tm[t].pend.gen = 0 \/ tm[t].susp \/ tm[t].canc)
 =============================================================================
